@@ -326,6 +326,55 @@ func runRepo(impl, opsS string) (result string) {
 			} else {
 				out = append(out, readSnaps(c))
 			}
+		case "P":
+			// two Append calls on one asset that overlap in time (always the last operation of a history): the first one's stream is
+			// produced slowly, the second one starts and returns in between; once both have returned the asset holds all snapshots
+			mk := func(spec string) []*asset.Snapshot {
+				var l []*asset.Snapshot
+				if spec != "" {
+					for _, d := range strings.Split(spec, ",") {
+						day, _ := strconv.Atoi(d)
+						serial++
+						l = append(l, mkSnap(day, serial))
+					}
+				}
+				return l
+			}
+			parts := strings.SplitN(f[2], "/", 2)
+			slow, quick := mk(parts[0]), mk(parts[1])
+			sc := make(chan *asset.Snapshot)
+			slowDone := make(chan error, 1)
+			go func() { slowDone <- repo.Append(f[1], sc) }()
+			if len(slow) > 0 {
+				sc <- slow[0]
+			}
+			quickErr := repo.Append(f[1], helper.SliceToChan(quick))
+			for _, x := range slow[min(1, len(slow)):] {
+				sc <- x
+			}
+			close(sc)
+			var slowErr error
+			select {
+			case slowErr = <-slowDone:
+			case <-time.After(5 * time.Second):
+				out = append(out, "hang")
+				return "ok " + strings.Join(out, ";")
+			}
+			if quickErr != nil || slowErr != nil {
+				out = append(out, "err")
+				break
+			}
+			c, err := repo.Get(f[1])
+			if err != nil {
+				out = append(out, "err")
+				break
+			}
+			var ids []string
+			for x := range c {
+				ids = append(ids, snapID(x))
+			}
+			sort.Strings(ids)
+			out = append(out, "ok:"+strings.Join(ids, ","))
 		case "S":
 			// a bound with a time of day (as cmd/indicator-sync computes it): the snapshot of that day's midnight lies before it
 			day, _ := strconv.Atoi(f[2])
